@@ -111,7 +111,8 @@ PROPS["C14"] = {
     "assumptions": ["virtual time = shifting firstObserved/lastRetry of every entry (the only inputs the routine derives ages from); ages are kept 0.5 s off the whole-second thresholds and cases whose real execution could blur that are inconclusive",
                     "retry budget 14400 is the value at the pinned commit", "'about' is read as: lower bounds 4 min (parked) / 50 min (completed), upper bound two ticks after the threshold"],
     "units": [U("TestVerif_C14_Schedule", PROC, R(4000), R(100000, shards=16, timeout=1500), replay_tries=3, replay_repeat=3),
-              U("TestVerif_C14_Budget", PROC, {"checks": 0, "shards": 1, "timeout": 600}, {"checks": 0, "shards": 1, "timeout": 600}, kind="plain")],
+              U("TestVerif_C14_Budget", PROC, {"checks": 0, "shards": 1, "timeout": 600}, {"checks": 0, "shards": 1, "timeout": 600}, kind="plain"),
+              U("TestVerif_C14_RunLoopTicks", PROC, PLAIN, PLAIN, kind="plain")],
 }
 
 PROPS["C12"] = {
@@ -218,13 +219,17 @@ PROPS["C19"] = {
             "or a lookup run with at least one append",
     "assumptions": ["independent verifier refvaa; the explorer is built against the node module version pinned in its go.mod, as the repository builds it",
                     "the chain RPC is an unreachable unix path, so a VAA naming an unknown set can only be refused", "duplicate suppression itself (ristretto, asynchronous) is not asserted"],
-    "units": [U("TestVerif_C19_Gate", "./processor", R(1500), R(40000, shards=16, timeout=1500), module=EX),
+    "units": [U("TestVerif_C19_Gate", "./processor", R(1500), R(40000, shards=16, timeout=1500), module=EX, replay_tries=3, replay_repeat=6),
               U("TestVerif_C19_Lookup", "./guardiansets", R(150, shards=2, timeout=900), R(3000, shards=16, timeout=1500), module=EX, race=True, crash_is_violation=True, replay_tries=3, replay_repeat=5),
               U("TestVerif_C19_FutureLookup", "./guardiansets", R(300, shards=2, timeout=900), R(6000, shards=16, timeout=1500), module=EX, race=True, crash_is_violation=True)],
 }
 PROPS["C07"]["units"].append(U("TestVerif_C07_ExplorerQuorum", "./processor", PLAIN, PLAIN, kind="plain", module=EX))
 PROPS["C07"]["units"].append(U("TestVerif_C07_ExplorerThreshold", "./processor", PLAIN, PLAIN, kind="plain", module=EX))
 PROPS["C06"]["units"].append(U("TestVerif_C06_ExplorerVerify", "./processor", R(1500), R(60000, shards=16, timeout=1500), module=EX))
+# C06 is anchored in observation.go as well (where the node applies the verification to gossip): the processor units
+# of C01 and C03 run under C06 too, with smaller budgets
+PROPS["C06"]["units"].append(U("TestVerif_C01_Safety", PROC, R(800), R(20000, shards=16, timeout=1500)))
+PROPS["C06"]["units"].append(U("TestVerif_C03_Observations", PROC, R(800), R(20000, shards=16, timeout=1500)))
 PROPS["C19"]["units"].append(U("TestVerif_C06_ExplorerVerify", "./processor", R(800), R(20000, shards=16, timeout=1500), module=EX))
 
 ALPH = "./pkg/alephium"
